@@ -136,14 +136,19 @@ func (pass *DisjunctionInferMapping) inferDiscriminatorField(schema *ast.Schema,
 
 	for _, candidateFieldName := range candidateFieldNames {
 		existsInAllBranches := true
+		// a discriminator tells the branches apart: its value differs from one branch to the other
+		// (a constant shared by every branch, like `apiVersion: "v1"`, does not discriminate anything)
+		distinctValues := make(map[any]struct{}, len(allTypes))
 		for _, branchTypeName := range allTypes {
-			if _, ok := candidates[branchTypeName][candidateFieldName]; !ok {
+			value, ok := candidates[branchTypeName][candidateFieldName]
+			if !ok {
 				existsInAllBranches = false
 				break
 			}
+			distinctValues[value] = struct{}{}
 		}
 
-		if existsInAllBranches {
+		if existsInAllBranches && len(distinctValues) == len(allTypes) {
 			fieldName = candidateFieldName
 			break
 		}
